@@ -54,6 +54,10 @@ def codes(s):
     return list(s.encode())
 
 
+META = [("out[12]", ["out1", "out2"]), ("gen?", ["genA", "gen1"]), ("b*d", ["build", "bd"]), ("a\\b", ["ab"]), ("v[0-9]x", ["v1x", "v[0-9]"]),
+        ("{a,b}", ["a", "b"]), ("~", ["home"]), ("o ut", ["o", "ut"]), ("$HOME", ["HOME"])]
+
+
 def main():
     tier = sys.argv[1] if len(sys.argv) > 1 else os.environ.get("VERIF_TIER", "quick")
     rng = random.Random(SEED)
@@ -71,11 +75,18 @@ def main():
         pre = rng.sample(nm, rng.randint(0, 14)) + rng.sample(["s0000000000.c", "d0000000000.c", "s0000000001.c", "d0000000003.c", "s0000000007.c"], rng.randint(0, 4))
         form = rng.choice(["rel", "dotrel", "abs", "nested", "inputinside", "long", "longabs", "missingdir"] if j % 9 == 8 else
                           ["rel", "dotrel", "abs", "nested", "inputinside", "long", "longabs"])
+        if j % 7 == 5:
+            # the output path ends in a separator: the name is the last component all the same
+            form = "trailing"
+        if j % 7 == 3:
+            # an output directory whose NAME contains pattern characters: it is a name, taken literally; sibling directories
+            # that such a pattern would select hold implementation-file names of their own
+            form = "meta"
         clean = rng.random() < 0.6
         if j * 12 < len(nm):
             # every near-miss name is present in at least one run with the clean option
             pre, clean = nm[j * 12:(j + 1) * 12] + pre[-2:], True
-        scen.append({"pre": sorted(set(pre)), "form": form, "nref": nref,
+        scen.append({"pre": sorted(set(pre)), "form": form, "nref": nref, "meta": META[(j // 7) % len(META)],
                      "o": {"nfuncs": nfuncs, "perfile": perfile, "nstatic": nstatic, "ndynamic": ndyn, "external": external,
                            "clean": clean, "out": out}})
     wd = common.scratch("c20-")
@@ -84,18 +95,28 @@ def main():
         write_ndjson(inf, [{"pre": [codes(n) for n in s["pre"]], "o": dict(s["o"], out=codes(s["o"]["out"]))} for s in scen])
         mc = tlc_ok(tlc("OutputFs", env={"INFILE": inf, "OUTFILE": outf}, timeout=1800), "OutputFs")
         pred = read_ndjson(outf)
-        w2c2 = common.build_w2c2(os.path.join(wd, "bin"))
+        w2c2_default = common.build_w2c2(os.path.join(wd, "bin"))
+        # the configuration for hosts without <libgen.h>: the translator's own dirname/basename take the path apart
+        w2c2_nolibgen = common.build_w2c2(os.path.join(wd, "bin"), name="w2c2-nolibgen",
+                                          defs=[d for d in common.W2C2_DEFS if "HAS_LIBGEN" not in d] + ["-DHAS_LIBGEN=0"])
 
         def one(j):
             s, p = scen[j], pred[j]
+            w2c2 = w2c2_nolibgen if j % 4 in (1, 2) else w2c2_default
             o = s["o"]
             root = os.path.join(wd, "r%d" % j)
             # "long": an output path of more than 255 (NAME_MAX) but less than PATH_MAX characters, made of ordinary components
             LONG = os.path.join("Makefile.d", "L" * 100, "M" * 100, "N" * 60)
             outdir = {"rel": root, "dotrel": os.path.join(root, "sub"), "abs": os.path.join(root, "o"),
                       "nested": os.path.join(root, "a", "b"), "inputinside": root, "long": os.path.join(root, LONG),
-                      "longabs": os.path.join(root, LONG), "missingdir": root}[s["form"]]
+                      "longabs": os.path.join(root, LONG), "missingdir": root, "meta": os.path.join(root, s["meta"][0]),
+                      "trailing": os.path.join(root, "t")}[s["form"]]
             os.makedirs(outdir, exist_ok=True)
+            if s["form"] == "meta":
+                for sib in s["meta"][1]:
+                    os.makedirs(os.path.join(root, sib), exist_ok=True)
+                    for n in ("s0000000000.c", "d0000000001.c", "s0000000002.c"):
+                        open(os.path.join(root, sib, n), "w").write("bystander in a directory the name would match as a pattern\n")
             os.makedirs(os.path.join(root, "elsewhere"), exist_ok=True)
             indir = outdir if s["form"] == "inputinside" else os.path.join(root, "elsewhere")
             # bystanders: the same near-miss names in a sibling directory and in a subdirectory of the output directory
@@ -126,7 +147,8 @@ def main():
             cwd = root
             outarg = {"rel": o["out"], "dotrel": "./sub/" + o["out"], "abs": os.path.join(outdir, o["out"]),
                       "nested": "a/b/" + o["out"], "inputinside": o["out"], "long": LONG + "/" + o["out"],
-                      "longabs": os.path.join(outdir, o["out"]),
+                      "longabs": os.path.join(outdir, o["out"]), "meta": s["meta"][0] + "/" + o["out"],
+                      "trailing": (os.path.join(outdir, o["out"]) if j % 3 == 0 else "t/" + o["out"]) + ("/" if j % 2 else "//"),
                       # the directory of the output path does not exist: nothing may be written or deleted anywhere (the pre-existing
                       # names lie in the invocation directory, where a translator that carried on would find them)
                       "missingdir": rng.choice(["nosuchdir/", "input.wasm/", os.path.join(root, "absent", "deeper") + "/"]) + o["out"]}[s["form"]]
@@ -141,7 +163,7 @@ def main():
                     devs.append(("touched", "files changed although the output directory does not exist: %s" %
                                  sorted(set(after.items()) ^ set(before.items()))[:4]))
                 shutil.rmtree(root, ignore_errors=True)
-                return j, devs, " ".join(args[1:] + ["input.wasm", outarg])
+                return j, devs, " ".join([os.path.basename(w2c2)] + args[1:] + ["input.wasm", outarg])
             if rc != 0:
                 devs.append(("exit", "status %s: %s" % (rc, se[-300:])))
             rel = os.path.relpath(outdir, root)
@@ -165,7 +187,7 @@ def main():
                     if not (name is not None and "/" not in name and name in written):
                         devs.append(("created", k))
             shutil.rmtree(root, ignore_errors=True)
-            return j, devs, " ".join(args[1:] + ["input.wasm", outarg])
+            return j, devs, " ".join([os.path.basename(w2c2)] + args[1:] + ["input.wasm", outarg])
         results = pmap(one, range(len(scen)))
         for j, devs, cmd in results:
             for kind, text in devs:
